@@ -225,6 +225,16 @@ def core(skip=()):
            "header": "namespace outer { const std::string& name(); void fill(std::vector<int> &v);\n"
                      "  namespace inner { std::vector<double> grid(); } }",
            "decls": ["int top(int a)"], "language": "c++", "options": {}}
+    # a struct with pointer members in a library where nothing else needs C_PTR; pointer results next to arguments that
+    # bring pre_call code (bool, implied)
+    for lang in ("c", "c++"):
+        yield {"pre": ["- decl: struct Buffer { int n; double *data; const char *label; };"],
+               "decls": ["int buffer_len(const Buffer *b)", "void buffer_clear(Buffer *b +intent(inout))"], "language": lang, "options": {}}
+        yield {"pre": ["- decl: struct Cell { int id; double value; };"],
+               "decls": ["int *counter(void)", "int *find_slot(int key, bool create)", "Cell *find_cell(int id, bool create)",
+                         "double *largest(double *values +rank(1)+intent(in), int n +implied(size(values)))",
+                         "int *pick(int *out +intent(out), bool flag)"],
+               "language": lang, "options": {}}
     # functions of a namespace (own Fortran module) that take / return a class of the enclosing scope
     yield {"pre": ["- decl: class Shape\n  declarations:\n  - decl: Shape()\n  - decl: ~Shape()\n  - decl: int area()\n"
                    "- decl: namespace tools\n  declarations:\n  - decl: int measure(Shape *s)\n  - decl: Shape *make()\n"
